@@ -262,6 +262,8 @@ pub fn run(tier: Tier, _replay: Option<Value>) -> ! {
         ("indirect", "${!r", ""),
         ("element", "${a[1]", "unset a; [[ ${v+x} ]] && a[1]=$v; "),
         ("positional", "${1", "if [[ ${v+x} ]]; then set -- \"$v\"; else set --; fi; "),
+        ("assoc-element", "${m[k]", "unset m; declare -A m; [[ ${v+x} ]] && m[k]=$v; "),
+        ("assoc-element-spaced-key", "${m[a b]", "unset m; declare -A m; [[ ${v+x} ]] && m[\"a b\"]=$v; "),
     ];
     let mk_script = |form: &str, nounset: bool| -> String {
         // pathname expansion is not the subject here (and the two shells' directories differ by s.sh)
@@ -270,7 +272,7 @@ pub fn run(tier: Tier, _replay: Option<Value>) -> ! {
         for (k, (_, setup)) in states.iter().enumerate() {
             // (nounset is switched on after the state has been mirrored)
             let nu = if nounset { "set -u; " } else { "" };
-            s.push_str(&format!("echo \"#{k}\"\n( {setup}; {mirror}{nu}vargs {form} \"{form}\"; set +u; echo \"v=<${{v-UNSET}}> a1=<${{a[1]-UNSET}}> n=$#\" ); echo \"s=$?\"\n"));
+            s.push_str(&format!("echo \"#{k}\"\n( {setup}; {mirror}{nu}vargs {form} \"{form}\"; set +u; echo \"v=<${{v-UNSET}}> a1=<${{a[1]-UNSET}}> n=$# mk=<${{m[k]-UNSET}}> mab=<${{m[a b]-UNSET}}> keys=<${{!m[@]}}>\" ); echo \"s=$?\"\n"));
         }
         s.push_str("echo \"#E\"\n");
         s
@@ -360,6 +362,10 @@ pub fn run(tier: Tier, _replay: Option<Value>) -> ! {
                         label.replacen("${a[1]", "${v", 1)
                     } else if label.starts_with("${1") && kind.contains('/') {
                         label.replacen("${1", "${v", 1)
+                    } else if label.starts_with("${m[k]") {
+                        label.replacen("${m[k]", "${v", 1)
+                    } else if label.starts_with("${m[a b]") {
+                        label.replacen("${m[a b]", "${v", 1)
                     } else {
                         label.clone()
                     };
